@@ -5,6 +5,10 @@ type C12Case struct {
 	Path     string `json:"path"`     // main | plugin-brokered | host-brokered | main-race (mux: intruder connects before the host)
 	Impostor string `json:"impostor"` // "" | tls | plaintext  (impostor cases ignore Path)
 	Launch   string `json:"launch"`
+	// CertEnv (Path "direct-env"): the plugin is started directly, as a host would start it, with this shape of
+	// PLUGIN_CLIENT_CERT: plain | cert+junkblock | junkblock+cert | cert+keyblock | cert+text | two-certs |
+	// junkblock-only | text-only
+	CertEnv string `json:"certEnv,omitempty"`
 }
 
 type C12Attempt struct {
@@ -20,6 +24,7 @@ type C12Obs struct {
 	PositiveOK bool         `json:"positiveOk"`
 	Positive   string       `json:"positive"`
 	Attempts   []C12Attempt `json:"attempts"`
+	Line       string       `json:"line,omitempty"` // direct-env: the handshake line
 	// impostor
 	HostOps []string `json:"hostOps"` // "<op>: ok|err ..."
 	AnyOK   bool     `json:"anyOk"`
